@@ -212,3 +212,12 @@ def test_d36_array_request_size_as_numpy_fixed_width_integer():
     for z in (a, b):
         z.bg_x.add_noise(0, 1)
     assert np.array_equal(np.asarray(a.get_samples(np.uint8(200))), np.asarray(b.get_samples(200)))
+
+
+@pytest.mark.parametrize('ty', [np.uint8, np.uint16, np.int8])
+def test_d37_pfb_settings_as_numpy_fixed_width_integers(ty):
+    x = np.random.default_rng(4).normal(size=2 * 8 * 6)
+    want = np.asarray(sv.PolyphaseFilterbank(num_taps=2, num_branches=8).channelize(x))
+    fb = sv.PolyphaseFilterbank(num_taps=ty(2), num_branches=ty(8))
+    got = np.concatenate([np.asarray(fb.channelize(x[k * 16:(k + 1) * 16])) for k in range(6)])
+    assert got.shape == want.shape and np.allclose(got, want, rtol=1e-12, atol=1e-12)
